@@ -23,7 +23,7 @@ def generate(seed, run, tier):
     big = tier == 'thorough'
     names = ['gv_keydoor.5x5.yaml', 'gv_keydoor.7x7.yaml', 'gv_keydoor.9x9.yaml']
     spec = common.pick_client(r, p_yaml=0.2, yaml_names=names, hmax=8 if big else 6, wmax=8 if big else 6)
-    if spec['kind'] == 'hand':
+    if spec['kind'] == 'hand' and spec.get('world') is not None:
         for t in ('Door', 'Key', 'Box'):
             if t not in spec['types'] and r.random() < 0.8:
                 spec['types'].append(t)
